@@ -34,7 +34,7 @@ func typeStr(t types.Type) string {
 	return s
 }
 
-func q(s string) string { return "|" + s + "|" }
+func q(s string) string { return "|" + strings.ReplaceAll(s, "|", "") + "|" }
 
 func (so *Sorts) decl(sym, line string) {
 	if so.seen[sym] {
